@@ -85,3 +85,13 @@ Theorem C02_lifetimes_as_in_source : forall c reset k named ls s0 ctr,
   Forall good_exit reps -> forall x, ~ inJ (o_trace s') x -> o_mem s' x = o_mem s0 x.
 Proof. exact C02_lifetimes. Qed.
 Print Assumptions C02_lifetimes_as_in_source.
+
+(* at every moment of a restoration: the original bytes are back (and flushed) BEFORE the trampoline is unmapped; one munmap, of the
+   guard's own trampoline *)
+From Inj Require Import InstallOrder.
+Theorem C02_restore_before_unmap : forall allp k s g s', drop_guard allp k s g = (s', ROk tt) ->
+  exists ppa ppl, o_trace s' = o_trace s ++
+    [EMprotect ppa ppl true; EWrite (g_func g) (firstn (g_psize g) (g_orig g)); EFlush (g_func g) (g_func g + zlen (firstn (g_psize g) (g_orig g)))]
+    ++ (if g_jit g =? 0 then [] else [EMunmap (g_jit g) (g_jsize g)]) ++ [EFlush (g_func g) (g_func g + Z.of_nat (g_psize g))].
+Proof. exact drop_guard_order. Qed.
+Print Assumptions C02_restore_before_unmap.
